@@ -41,3 +41,44 @@ pub fn take() -> Vec<String> {
     let mut sink = SINK.lock().unwrap_or_else(|e| e.into_inner());
     std::mem::take(&mut *sink)
 }
+
+/// Registra `Request` al crearse y `Done` al destruirse (también si hay pánico), para un cerrojo
+/// que se toma y libera dentro de una misma expresión
+pub struct Span(&'static str);
+
+impl Span {
+    pub fn new(lock: &'static str) -> Self {
+        emit(&format!("\"ev\":\"Request\",\"lock\":\"{}\"", lock));
+        Span(lock)
+    }
+}
+
+impl Drop for Span {
+    fn drop(&mut self) {
+        emit(&format!(
+            "\"ev\":\"Done\",\"lock\":\"{}\",\"panicking\":{}",
+            self.0,
+            std::thread::panicking()
+        ));
+    }
+}
+
+/// Registra `Acquire` al crearse (con el cerrojo ya tomado) y `Release` al destruirse
+pub struct Held(&'static str);
+
+impl Held {
+    pub fn new(lock: &'static str) -> Self {
+        emit(&format!("\"ev\":\"Acquire\",\"lock\":\"{}\"", lock));
+        Held(lock)
+    }
+}
+
+impl Drop for Held {
+    fn drop(&mut self) {
+        emit(&format!(
+            "\"ev\":\"Release\",\"lock\":\"{}\",\"panicking\":{}",
+            self.0,
+            std::thread::panicking()
+        ));
+    }
+}
